@@ -187,7 +187,7 @@ class Bus (objects.DBusObject):
         for rule_id in proto.matchRules:
             self.router.delMatch(rule_id)
 
-        for busName in proto.busNames.keys():
+        for busName in list(proto.busNames.keys()):
             self.dbus_ReleaseName(busName, proto.uniqueName)
 
         if proto.uniqueName:
@@ -441,9 +441,14 @@ class Bus (objects.DBusObject):
         owner = queue[0]
 
         if caller is not owner:
+            if caller in queue:
+                # no longer waiting for the name
+                queue.remove(caller)
+                del caller.busNames[name]
             return client.NAME_NOT_OWNER
 
         del queue[0]
+        del caller.busNames[name]
 
         if caller.isConnected:
             self.sendSignal(caller, 'NameLost', 's', name)
